@@ -371,7 +371,8 @@ def run_replay(path, timeout=600):
     return r.returncode, r.stdout[-3000:]
 
 
-def triage(pid, unit_result, what, replay_path, match_info, findings=None):
+def triage(pid, unit_result, what, replay_path, match_info, findings=None,
+           soft=False):
     """Replay a counter-example and file it as violation / known finding /
     harness error in unit_result."""
     findings = load_findings(pid) if findings is None else findings
@@ -385,6 +386,13 @@ def triage(pid, unit_result, what, replay_path, match_info, findings=None):
         unit_result.setdefault("violations", []).append(
             dict(what=what, replay=replay_path, info=match_info))
         return "violation"
+    if soft and rc == 0:
+        # exact-real model that the floating-point run does not follow:
+        # reported as inconclusive, never as success or violation
+        unit_result.setdefault("undecided", []).append(
+            "%s: solver model did not reproduce in floating point "
+            "(replay %s)" % (what, replay_path))
+        return "unreproduced"
     unit_result.setdefault("harness_errors", []).append(
         "counter-example for %s did not reproduce on the real code "
         "(replay %s rc=%s): %s" % (what, replay_path, rc, out[-500:]))
